@@ -53,6 +53,7 @@ type HarnessRun struct {
 	Deadlocks  int
 	Preempt    int
 	UnknownQ   []string
+	ForkSites  map[string]int
 }
 
 func (r *HarnessRun) noteUnknown(t *Term) {
@@ -142,9 +143,12 @@ func (e *Exec) model() map[string]string {
 	}
 	vals := e.solver.GetValues(ts)
 	m := map[string]string{}
+	e.concretizeBlobs(m)
 	for i, in := range e.inputs {
 		v := vals[i]
 		switch in.T.S.K {
+		case KBlob:
+			continue
 		case KStr:
 			m[in.Name] = "s:" + parseSMTString(v)
 		case KBV:
@@ -236,6 +240,9 @@ func runHarness(L *Loaded, fn *ssa.Function, cfg *RunCfg) *HarnessRun {
 				e := newExec(L, s, cfg, run, p, enqueue)
 				out := e.runPath(fn)
 
+				if os.Getenv("GOSMT_DUMP") != "" {
+					fmt.Fprintf(os.Stderr, "PATH %s %s prefix=%d trace=%v labels=%v\n", out.kind, out.msg, len(p), e.trace, e.labels)
+				}
 				run.mu.Lock()
 				run.Paths++
 				run.Queries += e.queries
@@ -384,9 +391,12 @@ func init() {
 	stubs[p+"verifBytes"] = func(e *Exec, th *Thread, c *CallCtx, a []Val) StubRes {
 		n := constName(a[0])
 		isNil := e.input("bool", n+".nil", SBool)
-		s := e.input("str", n, SStr)
+		s := e.input("blob", n, SBlob)
 		e.assume(tImplies(isNil, tEq(s, mkStr(""))))
 		return ret(&BytesV{Nil: isNil, S: s})
+	}
+	stubs[p+"verifKey"] = func(e *Exec, th *Thread, c *CallCtx, a []Val) StubRes {
+		return ret(e.input("blob", constName(a[0]), SBlob))
 	}
 	stubs[p+"verifAssume"] = func(e *Exec, th *Thread, c *CallCtx, a []Val) StubRes {
 		e.assumeChecked(a[0].(*Term))
@@ -429,6 +439,27 @@ func init() {
 	}
 	stubs[p+"verifThorough"] = func(e *Exec, th *Thread, c *CallCtx, a []Val) StubRes {
 		return ret(mkBool(e.thorough))
+	}
+	stubs[p+"verifAnd"] = func(e *Exec, th *Thread, c *CallCtx, a []Val) StubRes {
+		var ts []*Term
+		for _, v := range variadicArgs(a[0]) {
+			ts = append(ts, v.(*Term))
+		}
+		return ret(tAnd(ts...))
+	}
+	stubs[p+"verifOr"] = func(e *Exec, th *Thread, c *CallCtx, a []Val) StubRes {
+		var ts []*Term
+		for _, v := range variadicArgs(a[0]) {
+			ts = append(ts, v.(*Term))
+		}
+		return ret(tOr(ts...))
+	}
+	stubs[p+"verifImplies"] = func(e *Exec, th *Thread, c *CallCtx, a []Val) StubRes {
+		return ret(tImplies(a[0].(*Term), a[1].(*Term)))
+	}
+	stubs[p+"verifBytesEq"] = func(e *Exec, th *Thread, c *CallCtx, a []Val) StubRes {
+		x, y := a[0].(*BytesV), a[1].(*BytesV)
+		return ret(tAnd(tEq(x.Nil, y.Nil), tEq(x.S, y.S)))
 	}
 	stubs[p+"verifSymbolic"] = func(e *Exec, th *Thread, c *CallCtx, a []Val) StubRes {
 		return ret(tTrue)
